@@ -285,6 +285,15 @@ func (fr *frame) applyContract(st *PState, ct *Contract, sig *types.Signature, f
 	for _, m := range ct.Modifies {
 		fr.havocModifies(st, env, m, ct)
 	}
+	// ghost events
+	for _, em := range ct.Emits {
+		t, err := env.Tr(em.Expr)
+		if err != nil {
+			bail("emits of %s: %v", ShortName(ct.Func), err)
+		}
+		st.trace = st.Name("trace", Store(st.trace, st.traceN, t))
+		st.traceN = st.Name("traceN", App(SInt, "+", st.traceN, IntLit(1)))
+	}
 	// results
 	var results []Val
 	for i := 0; i < sig.Results().Len(); i++ {
@@ -326,7 +335,7 @@ func (fr *frame) havocModifies(st *PState, env *SpecEnv, item string, ct *Contra
 	case item == "":
 		return
 	case item == "trace":
-		st.trace = st.Fresh("trace", "(Array Int Int)")
+		st.trace = st.Fresh("trace", "(Array Int Ev)")
 		n := st.Fresh("traceN", SInt)
 		st.Assume(App(SBool, ">=", n, st.traceN))
 		st.traceN = n
